@@ -350,20 +350,26 @@ Fixpoint prefix_b (p s : text) : bool :=
 Fixpoint infix_b (p s : text) : bool :=
   prefix_b p s || match s with [] => false | _ :: r => infix_b p r end.
 Definition suffix_b (p s : text) : bool := prefix_b (rev p) (rev s).
-(* str.replace(old, new) for non-empty old: left to right, non-overlapping *)
-Fixpoint replace_go (old new s : text) (skip : nat) : text :=
+(* re.sub over the alternation of the items in source order: at every position the first item that matches is
+   replaced by its directive and skipped, any other character is kept *)
+Fixpoint first_item (tuples : list (text * text)) (s : text) : option (text * text) :=
+  match tuples with
+  | [] => None
+  | (h, d) :: rest => if prefix_b h s then Some (h, d) else first_item rest s
+  end.
+Fixpoint translate_go (tuples : list (text * text)) (s : text) (skip : nat) : text :=
   match s with
   | [] => []
   | c :: r =>
       match skip with
-      | S k => replace_go old new r k
-      | O => if prefix_b old s then new ++ replace_go old new r (length old - 1)
-             else c :: replace_go old new r 0
+      | S k => translate_go tuples r k
+      | O => match first_item tuples s with
+             | Some (h, d) => d ++ translate_go tuples r (length h - 1)
+             | None => c :: translate_go tuples r 0
+             end
       end
   end.
-Definition replace (old new s : text) : text := replace_go old new s 0.
-Definition strptime_format (rule : text) : text :=
-  fold_left (fun acc p => replace (fst p) (snd p) acc) HUMAN_READABLE_TO_STRPTIME rule.
+Definition strptime_format (rule : text) : text := translate_go HUMAN_READABLE_TO_STRPTIME rule 0.
 Definition has_any (ds : list text) (fmt : text) : bool := existsb (fun d => infix_b d fmt) ds.
 
 (* ------------------------------------------------------------------ time.strptime *)
